@@ -33,13 +33,45 @@ def cpp_namespace(cppdir):
     return m.group(1)
 
 
-def driver_source(pkg, with_ndjson=True, extra="", ns=None):
+def step_cpp_types(cppdir):
+    """{(protocol, StepName): C++ type text} parsed from the generated protocols.h (`void Write<Step>(<T> const& value);`)."""
+    txt = open(os.path.join(cppdir, "protocols.h")).read()
+    out = {}
+    for cm in re.finditer(r"class (\w+)WriterBase \{(.*?)\n\};", txt, re.S):
+        for m in re.finditer(r"^\s*void Write(\w+)\((.+) const& value\);$", cm.group(2), re.M):
+            out[(cm.group(1), m.group(1))] = m.group(2)
+    return out
+
+
+def manual_copy_source(pkg, ns, types):
+    """Per protocol a hand-written copy loop (binary -> binary) that reads stream steps into pre-sized vectors ("pzb": the
+    vector has size == capacity == c on entry, as `std::vector<T> batch(n)` gives) or into a fresh object per item ("frb")."""
+    out = []
+    for p in pkg.protocols:
+        out.append("static void manual_%s(const std::string& mode, std::istream& in, std::ostream& out, size_t c) {" % p.name)
+        out.append("  %s::binary::%sReader r(in); %s::binary::%sWriter w(out);" % (ns, p.name, ns, p.name))
+        for sn, st in p.steps:
+            cn = cpp_name(sn)
+            T = types[(p.name, cn)]
+            if st[0] == "stream":
+                out.append("  if (mode == \"pzb\") { std::vector<%s> vs(c); while (r.Read%s(vs)) { w.Write%s(vs); } w.End%s(); }" % (T, cn, cn, cn))
+                out.append("  else { while (true) { %s v{}; if (!r.Read%s(v)) break; w.Write%s(v); } w.End%s(); }" % (T, cn, cn, cn))
+            else:
+                out.append("  { %s v{}; r.Read%s(v); w.Write%s(v); }" % (T, cn, cn))
+        out.append("  r.Close(); w.Close();")
+        out.append("}")
+    return "\n".join(out)
+
+
+def driver_source(pkg, with_ndjson=True, extra="", ns=None, manual_types=None):
     ns = ns or pkg.namespace.lower()
     out = ['#include "binary/protocols.h"']
     if with_ndjson:
         out.append('#include "ndjson/protocols.h"')
     out += ["#include <iostream>", "#include <sstream>", "#include <string>", "#include <functional>", "#include <map>",
             "#include <vector>", "#include <cstdio>", "#include <cstring>", ""]
+    if manual_types:
+        out.append(manual_copy_source(pkg, ns, manual_types))
     out.append("using Fn = std::function<void(const std::string&, std::istream&, std::ostream&, size_t)>;")
     out.append("static std::map<std::string, Fn> table;")
     for p in pkg.protocols:
@@ -47,6 +79,8 @@ def driver_source(pkg, with_ndjson=True, extra="", ns=None):
         args = "".join(", bs" for _ in range(nstream))
         out.append("static void run_%s(const std::string& mode, std::istream& in, std::ostream& out, size_t bs) {" % p.name)
         out.append("  (void)bs;")
+        if manual_types:
+            out.append('  if (mode == "pzb" || mode == "frb") { manual_%s(mode, in, out, bs); return; }' % p.name)
         out.append('  if (mode == "b2b") { %s::binary::%sReader r(in); %s::binary::%sWriter w(out); r.CopyTo(w%s); r.Close(); w.Close(); }' % (ns, p.name, ns, p.name, args))
         if with_ndjson:
             out.append('  else if (mode == "b2n") { %s::binary::%sReader r(in); %s::ndjson::%sWriter w(out); r.CopyTo(w%s); r.Close(); w.Close(); }' % (ns, p.name, ns, p.name, args))
@@ -120,11 +154,11 @@ def compile_objects(cppdir, sources, flags, tag=""):
     return not errors, objs, errors
 
 
-def build_driver(pkg, cppdir, flags=("-O0",), with_ndjson=True, extra_main="", tag=""):
+def build_driver(pkg, cppdir, flags=("-O0",), with_ndjson=True, extra_main="", tag="", manual=False):
     """Returns (driver path | None, errors)."""
     main = os.path.join(cppdir, "verif_main%s.cc" % tag)
     with open(main, "w") as f:
-        f.write(driver_source(pkg, with_ndjson, extra_main, cpp_namespace(cppdir)))
+        f.write(driver_source(pkg, with_ndjson, extra_main, cpp_namespace(cppdir), step_cpp_types(cppdir) if manual else None))
     srcs = ["types.cc", "protocols.cc", "binary/protocols.cc"] + (["ndjson/protocols.cc"] if with_ndjson else []) + [main]
     ok, objs, errors = compile_objects(cppdir, srcs, list(flags), tag)
     if not ok:
